@@ -2,7 +2,7 @@
 from .. import core
 from . import c04
 
-ABORT = {"log", "enter", "probe", "crash", "registration-panic", "writer", "limit"}
+ABORT = {"log", "enter", "probe", "crash", "registration-panic", "writer", "limit", "unhealthy"}
 
 
 def run(chk):
@@ -17,6 +17,9 @@ def run(chk):
     c04.instance(chk, "odd", "odd", 2 if thorough else 58, 63, ab, base="N", only=ABORT)
     c04.instance(chk, "odd-nn", "odd", 2 if thorough else 30, 63 if thorough else 33, ab, base="NN", only=ABORT)
     c04.instance(chk, "uniform", "uniform", 1, 63, ["AN", "NA"] + (["A", "AS"] if thorough else []), only=ABORT)
+    # an abort followed by a panic (with and without an OnPanic hook): the abort mark must not outlive the request
+    c04.instance(chk, "abort-panic", "all", 1, 3, ["N", "A", "NP", "AN", "P"], kinds=("route", "notfound"), only=ABORT,
+                 hooks=("none", "status"), extra_invs=("DispatchOK",))
     c04.library(chk, ABORT, maxn=3 if thorough else 2, extra=("N", "NA"))
     from . import c08
     c08.redispatch(chk, ABORT)
